@@ -134,9 +134,20 @@ var fileLines = map[string]string{
 	"colonval": "d: g:h",
 }
 
-func runRow(t *testing.T, tmp string, in map[string]interface{}) map[string]interface{} {
+// runRow answers one row; a panic of the table code is an answer too ("no crash" is part of the statement).
+func runRow(t *testing.T, tmp string, in map[string]interface{}) (out map[string]interface{}) {
 	tab, _ := in["tab"].(string)
 	charTab := tab != "file"
+	defer func() {
+		if p := recover(); p != nil {
+			var empty interface{} = ""
+			if charTab {
+				empty = []string{}
+			}
+			out = map[string]interface{}{"init": "panic", "hasMulti": false, "multi": []interface{}{}, "val": empty,
+				"ok": false, "error": fmt.Sprint(p)}
+		}
+	}()
 	var (
 		tbl  module.Table
 		err  error
@@ -226,7 +237,7 @@ func runRow(t *testing.T, tmp string, in map[string]interface{}) map[string]inte
 	if done != nil {
 		defer done()
 	}
-	out := map[string]interface{}{"init": "ok"}
+	out = map[string]interface{}{"init": "ok"}
 	multi := []interface{}{}
 	mt, hasMulti := tbl.(module.MultiTable)
 	if hasMulti {
